@@ -693,7 +693,7 @@ PROPS["C10"] = PropSpec(c10_streams,
                         "{none, random delays, pause when the wait predicate is false, both, slow producer, slow workers} × seeds, on the real threads through the LIBCSD_VERIF_POINT hooks; "
                         "a hang is a timeout; non-trivial = at least 2 runs; distinct by (N, T, mode, strategy, seed)",
                         ["thread interleavings inside libstdc++'s condition_variable are represented by the two-step wait of the model, not executed exhaustively"],
-                        "state-machine model of the pool with invariants (at most once, exactly once at termination, no stuck state); the real pool is driven under perturbed schedules",
+                        "state-machine model of the pool with invariants (at most once, exactly once at termination, no stuck state) and a potential that bounds the length of every execution; the real pool is driven under perturbed schedules",
                         ["std::mutex / std::condition_variable behave as the C++17 standard says"])
 PROPS["C09"] = PropSpec(c09_streams,
                         "BLOCKS dictionaries × cut sizes {1, 8, 64, total/2, total, > total} × thread counts {2,3,8|16} × perturbation strategies: image compared byte for byte with the single-thread image, "
